@@ -65,6 +65,10 @@ def _shrink_oracle(g, seg, sig, budget=150):
     return cur
 
 
+def _is_known(ctx, sig):
+    return any(k.get("property") == ctx.prop and k.get("status", "known") == "known" and re.fullmatch(k["signature"], sig) for k in ctx.known)
+
+
 def run(ctx):
     import gen.keychain as g
     import quiccrypto as qc
@@ -73,6 +77,7 @@ def run(ctx):
                  "the full (sealing generation x opening generation) table in both directions, own-packet opens, tampered opens, limits "
                  "and header-protection masks; non-trivial = the implementation answered `ok`, distinct by op kind, side, generation, "
                  "packet class and verdict")
+    ctx.extra["keychain_rule"] = ctx.rule      # C15_keyset.py (runs later) assigns ctx.rule
     ctx.assumptions += [
         "keychain: the AEAD primitives of aws-lc (AES-GCM, ChaCha20-Poly1305) and the TLS 1.3 key schedule of s2n-tls / rustls up to the "
         "application traffic secrets are trusted; the secrets are read from the libraries' NSS key log (`with_key_logging()` of both providers)",
@@ -110,17 +115,29 @@ def run(ctx):
     # ---- the property oracle on the implementation's outputs --------------------------------
     fails = g.oracle(lines, r_out)
     new_fails, seen = [], set()
+    by_sig = {}
     for (i, sig, msg) in fails:
-        if sig in seen:
+        by_sig.setdefault(sig, (i, msg))
+    # one mistake in a provider shows up under every provider pair / suite / kind: report every KIND once (first
+    # provider pair it shows up in), shrunk; the complete list of signatures goes into the evidence
+    kinds = {}
+    for sig, (i, msg) in by_sig.items():
+        if _is_known(ctx, sig):
+            ctx.violation(sig, msg, {})          # registers the KNOWN-FINDING hit, records nothing
             continue
-        seen.add(sig)
+        kinds.setdefault(sig.split(":")[1], []).append((i, sig, msg))
+    for kind, lst in sorted(kinds.items(), key=lambda kv: kv[1][0][0]):
+        i, sig, msg = lst[0]
         seg = segment_upto(lines, i)
-        small = _shrink_oracle(g, seg, sig) if len(seen) <= 4 else seg
+        small = _shrink_oracle(g, seg, sig) if len(new_fails) < 3 else seg
         rc, r_s, _ = run_lines([harness_bin(HARNESS), COMP], small)
         rc, l_s, _ = run_lines([DRIVER, COMP], small)
-        if ctx.violation(sig, msg, {"kind": "oracle", "harness": HARNESS, "component": COMP, "ops": small,
-                                    "impl_output": r_s, "model_output": l_s, "failing_op": lines[i]}):
+        if ctx.violation(sig, msg + (f" [same kind under {len(lst) - 1} more provider/suite combinations: " +
+                                     ", ".join(x[1].split(':', 2)[2] for x in lst[1:6]) + "]" if len(lst) > 1 else ""),
+                         {"kind": "oracle", "harness": HARNESS, "component": COMP, "ops": small, "impl_output": r_s, "model_output": l_s,
+                          "failing_op": lines[i], "all_signatures_of_this_kind": [x[1] for x in lst]}):
             new_fails.append((i, sig, msg))
+    ctx.extra["keychain_oracle_signatures"] = sorted(by_sig)
     ctx.oblige("oracle", f"D:{HARNESS}/{COMP}: agreement, distinctness, RFC 9001 ciphertexts / hp masks, limits, tamper rejection on {len(lines)} ops",
                not new_fails, "; ".join(m for _, _, m in new_fails[:5]))
     if new_fails:
@@ -206,7 +223,9 @@ def run(ctx):
             if isinstance(e, tuple) and got != e[2]:
                 s, d, _ = e
                 broken.append(f"{s.label} {d}: {got}")
-                sig = f"keychain:observed-table-not-chainok:{s.label}:{d}"
+                sig = f"keychain:observed-table-not-chainok:{s.label}"
+                if fails:
+                    continue                 # the python oracle has reported (and shrunk) the same tables above
                 ctx.violation(sig, f"the table observed on the real keys ({s.label}, {d}) does not satisfy ChainOK: Lean checker says `{got}`",
                               {"kind": "oracle", "harness": HARNESS, "component": COMP, "ops": segment_upto(lines, s.start) + [], "lean_verdict": got,
                                "segment_head": " ".join(s.head[:4])})
